@@ -22,6 +22,8 @@ pub trait TimeUntil {
 
 impl TimeUntil for Instant {
     fn time_until(&self) -> Duration {
+        #[cfg(tarpc_verif)]
+        use crate::verif::clock::Instant;
         self.duration_since(Instant::now())
     }
 }
